@@ -11,14 +11,16 @@ copy: x.copy()}
 
 ``view`` turns an object into plain strings / lists / dicts through its public read API only (strings, names,
 parent coordinates, features with their spans and sliced text, annotation records, table rows and formatted
-text, parameter values, log-likelihood).  Where a plain-data model of the history exists (sequence text, the
-gapped string behind an IndelMap, the table rows) the view of the *round-tripped* object is additionally
-compared against that model, so a wrong original cannot make a wrong copy look right.
+text, parameter values, log-likelihood).  Where a plain-data model of the history exists (sequence text, rows of
+a collection, the gapped string behind an IndelMap, table rows) the original is first checked against that model
+(precondition): an original that already disagrees with the plain strings is another property's finding and is
+skipped, so the oracle of the round trip is always a state that plain data confirms.
 A view component whose evaluation raises on the original is recorded as ("raises", type) and must raise the
-same way on the copy.
+same way on the copy.  A history the library refuses to build is outside the precondition (skip).
 
 Failure keys:  <contract>/<type tag>/<channel>/<symptom>[/<state flags>]  with symptom one of
-raises:<ExceptionType>, differs:<components>, original-changed:<components>, model:<components>.
+raises:<ExceptionType>, differs:<components>, annotations-dropped, original-changed:<components>; the concrete
+history is in the message only.
 """
 from __future__ import annotations
 
@@ -305,16 +307,16 @@ def gen_seq(tier, seed):
             extra = ([["rc"], ["rna" if mt == "dna" else "dna"]] if nuc else []) + ([["degap"]] if "-" in parent else [])
             red = seq_slice_ops(L, rich=False)
             rich = seq_slice_ops(L, rich=True)
-            d1 = rich if thorough else red[::2] + (rich[::3] if parent == "ABCDE" else [])
+            d1 = (rich if L <= 8 else rich[::2] + red) if thorough else red[::2] + (rich[::3] if parent == "ABCDE" else [])
             if L == 0:
                 d1 = red = [["s", None, None, None], ["s", None, None, -1], ["s", 0, 1, 2]]
             for off, fid, info in roots:
                 chains = [[]] + [[o] for o in d1 + extra]
                 if L >= 2:
                     pool = red + extra * 6
-                    for _ in range(600 if thorough else 30):
+                    for _ in range(350 if thorough else 30):
                         chains.append([rnd.choice(pool), rnd.choice(pool)])
-                    for _ in range(200 if thorough else 8):
+                    for _ in range(100 if thorough else 8):
                         chains.append([rnd.choice(pool) for _ in range(3)])
                 if fid:
                     fn = [f[1] for f in SEQ_FEATURES[fid]]
@@ -353,13 +355,11 @@ def contract_seq(case):
             return ("skip",)
         if modelled:
             s, cur = seq_spec_apply(s, cur, op)
-    holder = {}
 
     def build():
         x = make_root_seq(new, mt, parent, off, fid, info)
         for op in ops:
             x = seq_real_apply(x, op)
-        holder["x"] = x
         return x
     try:
         x = build()
@@ -519,7 +519,7 @@ def coll_histories(kind, rid, thorough, rnd):
     chains = [[]] + [[o] for o in base]
     pairs = [[o1, o2] for o1 in base for o2 in base]
     if thorough:
-        chains += pairs + [[rnd.choice(base) for _ in range(3)] for _ in range(60)]
+        chains += pairs + [[rnd.choice(base) for _ in range(3)] for _ in range(30)]
     else:
         chains += pairs[::5]
     return chains
@@ -537,7 +537,7 @@ def gen_coll(tier, seed):
             for annot in annots:
                 for ops in coll_histories(kind, rid, thorough, rnd):
                     targets = ["self"]
-                    if rid in ("dna3", "prot") and len(ops) <= (2 if thorough else 1):
+                    if rid in ("dna3", "prot") and len(ops) <= 1:
                         targets += ["seq", "seq[1:-1]", "seq.rc"] + (["gapped", "aligned"] if kind in ("aln", "arr") else []) + (
                             ["seqs"] if kind == "ncoll" else [])
                     for target in targets:
@@ -1782,11 +1782,9 @@ def gen_lf(tier, seed):
 
 def contract_lf(case):
     bid, ops, how = case
-    kinds = sorted({("rule:" + ",".join(sorted(k for k in op[1] if k not in ("par_name", "init", "value", "lower", "upper")))
-                     if op[0] == "rule" else op[0]) for op in ops})
     fam = {"HKY85loci": "multi-locus", "HKY85gamma": "gamma", "BH": "discrete", "custom": "custom-model", "JTT92": "protein",
            "dinuc": "dinucleotide", "MG94HKY": "codon"}.get(bid, "nucleotide")
-    del kinds  # the history is in the message; keys name the family, the channel and the differing components
+    # the history is in the message; keys name the family, the channel and the differing components
     return check_rt(f"lf/{fam}", how, lambda: lf_build(bid, ops), lf_view, case)
 
 
@@ -1881,7 +1879,7 @@ def result_build(spec):
         for item in spec[1]:
             t[item] = make_root_table("mixed") if item == "table" else make_root_da("2d") if item == "da" else make_root_dm("sym4")
         return t
-    mk = lambda name, **kw: get_app("model", name, tree=tree, show_progress=False, opt_args=opt, **kw)  # noqa: E731
+    mk = lambda model_, **kw: get_app("model", model_, tree=tree, show_progress=False, opt_args=opt, **kw)  # noqa: E731
     if kind == "model":
         return mk(spec[1], **dict(spec[2]))(aln if not dict(spec[2]).get("split_codons") else aln)
     if kind == "hypothesis":
@@ -1936,8 +1934,9 @@ def contract_result(case):
         flags = "source:" + spec[4]
 
     def build():
+        from cogent3.app.composable import NotCompleted
         r = result_build(spec)
-        if kind != "nc" and not r:
+        if kind != "nc" and isinstance(r, NotCompleted):
             raise ValueError(f"the app did not complete: {r}")
         return r
     return check_rt(tag, how, build, viewfn, case, flags=flags)
@@ -1950,8 +1949,9 @@ BOUNDED = {
                       "deserialise.deserialise_seq", "new_sequence.Sequence.copy", "Sequence.__reduce__ (pickle)"],
         "bound": "old and new Sequence types x dna/rna/protein/text/bytes parents of length 0..10 x annotation_offset {0,5,3} x "
                  "{no features, 2-3 features incl. multi-span and minus strand} x info {none, 2 keys} x histories: every "
-                 "slice a,b in [-L-1,L+1]+None, c in {None,+-1,+-2,+-3} (quick, L>5: a,b in {None,-2,0,1,2,L-1,L+1}, c in "
-                 "{None,-1,+-2}), rc, to_rna/to_dna, degap; depth 2 and 3: seeded sample over the reduced set; x channels "
+                 "slice a,b in [-L-1,L+1]+None, c in {None,+-1,+-2,+-3} (L=10: every 2nd of them + the reduced set a,b in "
+                 "{None,-2,0,1,2,L-1,L+1}, c in {None,-1,+-2}; quick: every 2nd of the reduced set, every 3rd of the full set "
+                 "for the text parent), rc, to_rna/to_dna, degap; depth 2 and 3: seeded sample over the reduced set; x channels "
                  "json, rich, pickle, copy",
         "rule": "a case = (type, moltype, parent, offset, feature set, info, history, channel); non-trivial when the "
                 "displayed string is non-empty; distinct by hash of the case",
